@@ -124,11 +124,11 @@ func Open(options Options) (*DB, error) {
 
 	// 如果 merge 成功, 尝试使用 hint 文件快速加载索引
 	if nonMergeFileId > 0 {
-		maxFileId, err := db.loadIndexFromHintFile()
+		coveredFileId, err := db.loadIndexFromHintFile()
 		if err != nil {
 			return nil, err
 		}
-		nonMergeFileId = min(maxFileId, nonMergeFileId)
+		nonMergeFileId = min(coveredFileId, nonMergeFileId)
 	}
 
 	if db.activeFile == nil {
